@@ -595,8 +595,8 @@ def search_checker(acc: Acc, cfg: Cfg, ex: Execution, payload: dict) -> None:
 def search_configs(tier: str) -> List[Cfg]:
     classes = dw.start_classes("quick")
     res = []
-    packs = ["base", "inf1", "inf2", "sym", "norm+sym", "base+iter", "inf1+iter", "inf2+iter", "sym+iter"] if tier == "quick" else [
-        "base", "inf1", "inf2", "inf2r", "sym", "norm+sym", "rfac", "two", "ver:a,b", "base+iter", "inf1+iter", "inf2+iter", "sym+iter", "rfac+iter", "ver:a,b+iter"]
+    packs = ["base", "inf1", "inf2", "sym", "norm+sym", "oneway+inf1", "onewayexp+inf1+sym", "base+iter", "inf1+iter", "inf2+iter", "sym+iter", "oneway+inf1+iter"] if tier == "quick" else [
+        "base", "inf1", "inf2", "inf2r", "sym", "norm+sym", "rfac", "two", "ver:a,b", "base+iter", "inf1+iter", "inf2+iter", "sym+iter", "rfac+iter", "ver:a,b+iter", "oneway", "oneway+inf1", "onewayexp+inf1+sym", "oneway+inf2", "oneway+inf1+iter", "onewayexp+inf1+iter"]
     for c in classes:
         for pk in packs:
             for db in ("RuleDB", "Forget"):
